@@ -2387,4 +2387,541 @@ theorem noInv_close {s s' : State} {t : TxId} {ok : Bool} (h : NOInv s) (hs : st
   | rollback hw =>
     exact noInv_closeW h ht hop hw s.latest s.nver true s.older s.log (Or.inr ⟨rfl, rfl, rfl⟩)
 
+theorem agree_put {ob : Obj} {n : Name} {d : Disk} (h : Agree ob n d) (i : Item) (v : Val) (k : Nat) :
+    Agree { ob with items := upd ob.items i (some (v, k)) } n (d.apply (.put n i v)) := by
+  intro j w k' hj
+  dsimp only at hj
+  rw [apply_put_idx]
+  by_cases ej : j = i
+  · subst ej; simp at hj; simp [hj.1]
+  · simp only [upd_other _ _ _ _ ej] at hj; simp only [ej, if_false]; exact h j w k' hj
+
+theorem agree_del {ob : Obj} {n : Name} {d : Disk} (h : Agree ob n d) (i : Item) :
+    Agree { ob with items := upd ob.items i none } n (d.apply (.del n i)) := by
+  intro j w k' hj
+  dsimp only at hj
+  rw [apply_del_idx]
+  by_cases ej : j = i
+  · subst ej; simp at hj
+  · simp only [upd_other _ _ _ _ ej] at hj; simp only [ej, if_false]; exact h j w k' hj
+
+theorem noInv_wr {s s' : State} {t : TxId} {op : Op} (h : NOInv s) (hs : stepWr s t op = some s') : NOInv s' := by
+  obtain ⟨tx, ht, hw, hop, objs', hS, hcase⟩ := stepWr_some hs
+  generalize s' = S at hS ⊢
+  have eT : S.txs = upd s.txs t (some { tx with view := tx.view.apply op, ops := tx.ops ++ [op] }) := by rw [hS]
+  have eO : S.objs = objs' := by rw [hS]
+  have eM : S.map = s.map := by rw [hS]
+  have eU : S.users = s.users := by rw [hS]
+  have eL : S.latest = s.latest := by rw [hS]
+  have eV : S.nver = s.nver := by rw [hS]
+  have eW : S.writer = s.writer := by rw [hS]
+  have eN : S.nextObj = s.nextObj := by rw [hS]
+  have eSh : S.shared = s.shared := by rw [hS]
+  have hother : ∀ u, u ≠ t → S.txs u = s.txs u := fun u hu => by rw [eT, upd_other _ _ _ _ hu]
+  have hself : S.txs t = some { tx with view := tx.view.apply op, ops := tx.ops ++ [op] } := by rw [eT, upd_same]
+  have hndT : ∀ m, ¬ Done s t m := fun m => not_done_of_open ht hop
+  have hdone : ∀ u m, Done S u m ↔ Done s u m := by
+    intro u m
+    by_cases e : u = t
+    · subst e
+      constructor
+      · rintro ⟨tx', g1, g2, _⟩
+        rw [hself] at g1; simp only [Option.some.injEq] at g1; subst g1
+        rw [hop] at g2; simp at g2
+      · intro hd; exact absurd hd (hndT m)
+    · exact done_same (hother u e)
+  have hend : ∀ u, endVerOf S u = endVerOf s u := by
+    intro u
+    by_cases e : u = t
+    · subst e; unfold endVerOf; rw [hself, ht]
+    · exact endVerOf_same (hother u e)
+  -- what the op touches: an index `n0` whose object `o0` the writer holds, or nothing
+  have htouch : (op.name? = none ∧ objs' = s.objs) ∨
+      ∃ n0 o0 ob0 ob0', op.name? = some n0 ∧ tx.cur n0 = some o0 ∧ s.objs o0 = some ob0 ∧ objs' = upd s.objs o0 (some ob0') ∧
+        ob0'.name = ob0.name ∧ ob0'.owner = ob0.owner ∧
+        (∀ d, Agree ob0 n0 d → Agree ob0' n0 (d.apply op)) := by
+    rcases hcase with ⟨e1, e2⟩ | ⟨n0, i, o0, ob0, h1, h2, h3⟩
+    · exact Or.inl ⟨e2, e1⟩
+    · rcases h3 with ⟨v, rfl, rfl⟩ | ⟨rfl, rfl⟩
+      · exact Or.inr ⟨n0, o0, ob0, _, rfl, h1, h2, rfl, rfl, rfl, fun d hd => agree_put hd i v _⟩
+      · exact Or.inr ⟨n0, o0, ob0, _, rfl, h1, h2, rfl, rfl, rfl, fun d hd => agree_del hd i⟩
+  have hview : ∀ m, op.name? ≠ some m → (tx.view.apply op).idx m = tx.view.idx m := fun m hm => apply_idx_other _ _ _ hm
+  -- objects other than the touched one are unchanged
+  have hobjs : ∀ o1 ob1, s.objs o1 = some ob1 → (∀ n0 o0, op.name? = some n0 → tx.cur n0 = some o0 → o1 ≠ o0) → S.objs o1 = some ob1 := by
+    intro o1 ob1 h1 hne
+    rw [eO]
+    rcases htouch with ⟨_, e2⟩ | ⟨n0, o0, ob0, ob0', e1, e2, _, e4, _⟩
+    · rw [e2]; exact h1
+    · rw [e4, upd_other _ _ _ _ (hne n0 o0 e1 e2)]; exact h1
+  -- the object `t` holds for `m`, in the new state
+  have hcurT : ∀ m o', tx.cur m = some o' → t ∈ s.users m ∧ ∃ ob, S.objs o' = some ob ∧ ob.name = m ∧ ob.owner = t ∧
+      Agree ob m (tx.view.apply op) := by
+    intro m o' hc
+    obtain ⟨hm, ob1, hob1, hn1, how1, hag1⟩ := h.cur t tx m o' ht hc (hndT m)
+    refine ⟨hm, ?_⟩
+    rcases htouch with ⟨e1, e2⟩ | ⟨n0, o0, ob0, ob0', e1, e2, e3, e4, e5, e6, e7⟩
+    · exact ⟨ob1, by rw [eO, e2]; exact hob1, hn1, how1, agree_congr hag1 rfl (hview m (by rw [e1]; simp))⟩
+    · by_cases emn : m = n0
+      · subst emn
+        rw [e2] at hc; simp only [Option.some.injEq] at hc; subst hc
+        rw [e3] at hob1; simp only [Option.some.injEq] at hob1; subst hob1
+        exact ⟨ob0', by rw [eO, e4]; exact upd_same _ _ _, e5.trans hn1, e6.trans how1, e7 _ hag1⟩
+      · have hoo : o' ≠ o0 := by
+          intro e; subst e
+          obtain ⟨_, ob2, hob2, hn2, _, _⟩ := h.cur t tx n0 o' ht e2 (hndT n0)
+          rw [hob1] at hob2; simp only [Option.some.injEq] at hob2; subst hob2
+          exact emn (hn1.symm.trans hn2)
+        refine ⟨ob1, by rw [eO, e4, upd_other _ _ _ _ hoo]; exact hob1, hn1, how1, ?_⟩
+        exact agree_congr hag1 rfl (hview m (by rw [e1]; simp; exact fun e => emn e.symm))
+  refine ⟨?_, ?_, ?_, ?_, ?_, ?_, ?_, ?_, by rw [eSh, eM]; exact h.pm, ?_, ?_, ?_⟩
+  · intro u tx' g1
+    rw [eV, eW]
+    by_cases e : u = t
+    · subst e; rw [hself] at g1; simp only [Option.some.injEq] at g1; subst g1; exact h.ver u tx ht
+    · rw [hother u e] at g1; exact h.ver u tx' g1
+  · intro u tx' m g1 g2 g3 g4
+    have hcb : CommittedBefore s m tx'.snap := by
+      intro v hv vtx f1 f2 f3 f4
+      have hvt : v ≠ t := by intro e; subst e; rw [ht] at f1; simp only [Option.some.injEq] at f1; subst f1; rw [hop] at f3; simp at f3
+      exact g4 v (eU ▸ hv) vtx (by rw [hother v hvt]; exact f1) f2 f3 f4
+    rw [eL]
+    by_cases e : u = t
+    · subst e; rw [hself] at g1; simp only [Option.some.injEq] at g1; subst g1
+      have hm : u ∉ s.users m := by rw [← eU]; exact g3 hw
+      dsimp only
+      rw [hview m ?_]
+      · exact h.fresh u tx m ht hop (fun _ => hm) hcb
+      · intro e1
+        rcases htouch with ⟨e2, _⟩ | ⟨n0, o0, _, _, e2, e3, _⟩
+        · rw [e2] at e1; simp at e1
+        · rw [e2] at e1; simp only [Option.some.injEq] at e1; subst e1
+          exact hm (h.cur u tx n0 o0 ht e3 (hndT n0)).1
+    · rw [hother u e] at g1
+      exact h.fresh u tx' m g1 g2 (by rw [← eU]; exact g3) hcb
+  · intro u tx' m o' g1 g2 g3 g4 g5
+    have e : u ≠ t := by intro e; subst e; rw [hself] at g1; simp only [Option.some.injEq] at g1; subst g1; dsimp only at g3; rw [hop] at g3; simp at g3
+    rw [hother u e] at g1
+    rw [eL]; exact h.committed u tx' m o' g1 g2 g3 g4 g5
+  · intro u tx' m o' g1 g2 g3
+    by_cases e : u = t
+    · subst e; rw [hself] at g1; simp only [Option.some.injEq] at g1; subst g1
+      obtain ⟨hm, hrest⟩ := hcurT m o' g2
+      exact ⟨eU ▸ hm, hrest⟩
+    · rw [hother u e] at g1
+      have hnd : ¬ Done s u m := fun hd => g3 ((hdone u m).2 hd)
+      obtain ⟨hm, ob1, hob1, hn1, how1, hag1⟩ := h.cur u tx' m o' g1 g2 hnd
+      refine ⟨eU ▸ hm, ob1, hobjs o' ob1 hob1 ?_, hn1, how1, hag1⟩
+      intro n0 o0 e1 e2 eo
+      subst eo
+      obtain ⟨hmt, ob2, hob2, hn2, _, _⟩ := h.cur t tx n0 o' ht e2 (hndT n0)
+      rw [hob1] at hob2; simp only [Option.some.injEq] at hob2; subst hob2
+      have emn : m = n0 := hn1.symm.trans hn2
+      subst emn
+      exact hndT m (h.excl m u tx' hm g1 hnd t hmt (fun e' => e e'.symm)).1
+  · intro m u tx' g1 g2 g3 v g4 g5
+    have hnd : ¬ Done s u m := fun hd => g3 ((hdone u m).2 hd)
+    have key : ∀ txu, s.txs u = some txu → txu.snap = tx'.snap → Done S v m ∧ endVerOf S v ≤ tx'.snap := by
+      intro txu f1 f2
+      have := h.excl m u txu (eU ▸ g1) f1 hnd v (eU ▸ g4) g5
+      exact ⟨(hdone v m).2 this.1, by rw [hend, ← f2]; exact this.2⟩
+    by_cases e : u = t
+    · subst e; rw [hself] at g2; simp only [Option.some.injEq] at g2; subst g2; exact key tx ht rfl
+    · rw [hother u e] at g2; exact key tx' g2 rfl
+  · intro m o' g1
+    rw [eM] at g1
+    obtain ⟨ob1, hob1, hn1, ha, hb⟩ := h.map m o' g1
+    by_cases hheld : tx.cur m = some o'
+    · -- the manager's object is the one the writer holds
+      obtain ⟨hm, ob', hob', hn', _, hag'⟩ := hcurT m o' hheld
+      refine ⟨ob', hob', hn', ?_, ?_⟩
+      · intro u g2 g3
+        have hut : u = t := by
+          by_cases hut : u = t
+          · exact hut
+          · exact absurd (h.excl m t tx hm ht (hndT m) u (eU ▸ g2) hut).1 (fun hd => g3 ((hdone u m).2 hd))
+        subst hut
+        exact ⟨_, hself, hag'⟩
+      · intro hall
+        exact absurd ((hdone t m).1 (hall t (eU ▸ hm))) (hndT m)
+    · have hsame : S.objs o' = some ob1 := by
+        refine hobjs o' ob1 hob1 ?_
+        intro n0 o0 e1 e2 eo
+        subst eo
+        obtain ⟨_, ob2, hob2, hn2, _, _⟩ := h.cur t tx n0 o' ht e2 (hndT n0)
+        rw [hob1] at hob2; simp only [Option.some.injEq] at hob2; subst hob2
+        have emn : m = n0 := hn1.symm.trans hn2
+        subst emn
+        exact hheld e2
+      refine ⟨ob1, hsame, hn1, ?_, ?_⟩
+      · intro u g2 g3
+        obtain ⟨tx0, f1, hag0⟩ := ha u (eU ▸ g2) (fun hd => g3 ((hdone u m).2 hd))
+        by_cases e : u = t
+        · subst e; rw [ht] at f1; simp only [Option.some.injEq] at f1; subst f1
+          refine ⟨_, hself, ?_⟩
+          dsimp only
+          refine agree_congr hag0 rfl (hview m ?_)
+          intro e1
+          rcases htouch with ⟨e2, _⟩ | ⟨n0, o0, _, _, e2, e3, _⟩
+          · rw [e2] at e1; simp at e1
+          · rw [e2] at e1; simp only [Option.some.injEq] at e1; subst e1
+            -- the writer holds an object of `m` other than the manager's: excluded by `wmap`
+            rcases h.wmap u tx n0 o0 ht hw e3 with hx | hx
+            · rw [hx] at g1; simp at g1
+            · rw [hx] at g1; simp only [Option.some.injEq] at g1; subst g1; exact hheld e3
+        · exact ⟨tx0, by rw [hother u e]; exact f1, hag0⟩
+      · intro hall
+        rw [eL]; exact hb (fun u hu => (hdone u m).1 (hall u (eU ▸ hu)))
+  · intro u tx' m o' g1 g2 g3
+    rw [eM]
+    by_cases e : u = t
+    · subst e; rw [hself] at g1; simp only [Option.some.injEq] at g1; subst g1; exact h.wmap u tx m o' ht hw g3
+    · rw [hother u e] at g1; exact h.wmap u tx' m o' g1 g2 g3
+  · intro u tx' m g1 g2 g3 g4
+    by_cases e : u = t
+    · subst e; rw [hself] at g1; simp only [Option.some.injEq] at g1; subst g1; exact h.wusers u tx m ht hw hop (eU ▸ g4)
+    · rw [hother u e] at g1; exact h.wusers u tx' m g1 g2 g3 (eU ▸ g4)
+  · intro o1 ob1' g1
+    rw [eN]
+    rw [eO] at g1
+    rcases htouch with ⟨_, e2⟩ | ⟨n0, o0, ob0, ob0', _, _, e3, e4, _⟩
+    · rw [e2] at g1; exact h.bound o1 ob1' g1
+    · rw [e4] at g1
+      rcases upd_some_cases g1 with ⟨rfl, _⟩ | ⟨_, hold⟩
+      · exact h.bound _ _ e3
+      · exact h.bound _ _ hold
+  · intro m u g1
+    by_cases e : u = t
+    · subst e; exact ⟨_, hself⟩
+    · obtain ⟨tx0, f1⟩ := h.users m u (eU ▸ g1); exact ⟨tx0, by rw [hother u e]; exact f1⟩
+  · intro u tx' g1 g2
+    by_cases e : u = t
+    · subst e; rw [hself] at g1; simp only [Option.some.injEq] at g1; subst g1; exact h.openOk u tx ht hop
+    · rw [hother u e] at g1; exact h.openOk u tx' g1 g2
+
+
+theorem noInv_access {s s' : State} {t : TxId} {n : Name} (h : NOInv s) (hg : mayAccess s t n = true)
+    (hs : stepAccess s t n = some s') : NOInv s' := by
+  obtain ⟨tx, o, ob', nx, mp, ht, hop, hc, hcase, hS⟩ := stepAccess_some hs
+  obtain ⟨tx0, ht0, hG⟩ := mayAccess_spec hg
+  rw [ht] at ht0; simp only [Option.some.injEq] at ht0; subst ht0
+  generalize s' = S at hS ⊢
+  have eT : S.txs = upd s.txs t (some { tx with cur := upd tx.cur n (some o), inUse := tx.inUse + 1 }) := by rw [hS]; rfl
+  have eO : S.objs = upd s.objs o (some ob') := by rw [hS]; rfl
+  have eM : S.map = mp := by rw [hS]; rfl
+  have eU : S.users = upd s.users n (t :: s.users n) := by rw [hS]; rfl
+  have eL : S.latest = s.latest := by rw [hS]; rfl
+  have eV : S.nver = s.nver := by rw [hS]; rfl
+  have eW : S.writer = s.writer := by rw [hS]; rfl
+  have eN : S.nextObj = nx := by rw [hS]; rfl
+  have eSh : S.shared = s.shared := by rw [hS]; rfl
+  have hother : ∀ u, u ≠ t → S.txs u = s.txs u := fun u hu => by rw [eT, upd_other _ _ _ _ hu]
+  have hself : S.txs t = some { tx with cur := upd tx.cur n (some o), inUse := tx.inUse + 1 } := by rw [eT, upd_same]
+  have hndT : ∀ m, ¬ Done s t m := fun m => not_done_of_open ht hop
+  have hdone : ∀ u m, Done S u m ↔ Done s u m := by
+    intro u m
+    by_cases e : u = t
+    · subst e
+      constructor
+      · rintro ⟨tx', g1, g2, _⟩
+        rw [hself] at g1; simp only [Option.some.injEq] at g1; subst g1
+        dsimp only at g2; rw [hop] at g2; simp at g2
+      · intro hd; exact absurd hd (hndT m)
+    · exact done_same (hother u e)
+  have hend : ∀ u, endVerOf S u = endVerOf s u := by
+    intro u
+    by_cases e : u = t
+    · subst e; unfold endVerOf; rw [hself, ht]
+    · exact endVerOf_same (hother u e)
+  have husers_n : ∀ u, u ∈ S.users n ↔ (u = t ∨ u ∈ s.users n) := by
+    intro u; rw [eU, upd_same]; simp
+  have husers_m : ∀ m, m ≠ n → S.users m = s.users m := fun m hm => by rw [eU, upd_other _ _ _ _ hm]
+  have husers_sub : ∀ m u, u ∈ s.users m → u ∈ S.users m := by
+    intro m u hu
+    by_cases e : m = n
+    · subst e; exact (husers_n u).2 (Or.inr hu)
+    · rw [husers_m m e]; exact hu
+  have husers_back : ∀ m u, u ∈ S.users m → u ≠ t → u ∈ s.users m := by
+    intro m u hu hne
+    by_cases e : m = n
+    · subst e; rcases (husers_n u).1 hu with h1 | h1
+      · exact absurd h1 hne
+      · exact h1
+    · rw [husers_m m e] at hu; exact hu
+  -- committed writers known to `S` were known to `s`
+  have hcb : ∀ m k, CommittedBefore S m k → CommittedBefore s m k := by
+    intro m k hcb v hv vtx f1 f2 f3 f4
+    have hvt : v ≠ t := by intro e; subst e; rw [ht] at f1; simp only [Option.some.injEq] at f1; subst f1; rw [hop] at f3; simp at f3
+    exact hcb v (husers_sub m v hv) vtx (by rw [hother v hvt]; exact f1) f2 f3 f4
+  -- the view of `t` is current for index `n`
+  have hcur_idx : t ∉ s.users n → tx.view.idx n = s.latest.idx n := by
+    intro hm
+    refine h.fresh t tx n ht hop (fun _ => hm) ?_
+    intro v hv vtx f1 _ _ _
+    have hvt : v ≠ t := fun e => hm (e ▸ hv)
+    have := (hG v hv hvt).2
+    unfold endVerOf at this; rw [f1] at this; exact this
+  -- every object the manager holds for `n` agrees with the view of `t`
+  have hmapAgree : ∀ o1 ob1, s.map n = some o1 → s.objs o1 = some ob1 → ob1.name = n ∧ Agree ob1 n tx.view := by
+    intro o1 ob1 hm1 ho1
+    obtain ⟨ob2, hob2, hn2, ha, hb⟩ := h.map n o1 hm1
+    rw [ho1] at hob2; simp only [Option.some.injEq] at hob2; subst hob2
+    refine ⟨hn2, ?_⟩
+    by_cases hm : t ∈ s.users n
+    · obtain ⟨tx1, f1, hag⟩ := ha t hm (hndT n)
+      rw [ht] at f1; simp only [Option.some.injEq] at f1; subst f1; exact hag
+    · have hall : ∀ u ∈ s.users n, Done s u n := fun u hu => (hG u hu (fun e => hm (e ▸ hu))).1
+      exact agree_congr (hb hall) rfl (hcur_idx hm)
+  have hob' : ob'.name = n ∧ ob'.owner = t ∧ Agree ob' n tx.view := by
+    cases hcase with
+    | fresh inMap _ _ => exact ⟨by split <;> rfl, by split <;> rfl, by split <;> exact agree_fresh _ _ _ _ _ _ _⟩
+    | existing o2 ob2 hsh hm ho hwn hr =>
+      obtain ⟨a, b⟩ := hmapAgree o ob2 hm ho
+      unfold takeShared
+      exact ⟨by split <;> exact a, by split <;> rfl, by split <;> exact agree_congr b rfl rfl⟩
+  have hoth : ∀ m o1 ob1, m ≠ n → s.objs o1 = some ob1 → ob1.name = m → o1 ≠ o := by
+    intro m o1 ob1 hmn hob1 hn1 e
+    subst e
+    cases hcase with
+    | fresh inMap _ _ => exact absurd (h.bound _ _ hob1) (Nat.lt_irrefl _)
+    | existing o2 ob2 hsh hm ho hwn hr =>
+      rw [ho] at hob1; simp only [Option.some.injEq] at hob1; subst hob1
+      exact hmn (hn1.symm.trans (hmapAgree o1 ob2 hm ho).1)
+  have hnx : o < nx ∧ s.nextObj ≤ nx := by
+    cases hcase with
+    | fresh inMap _ _ => exact ⟨Nat.lt_succ_self _, Nat.le_succ _⟩
+    | existing o2 ob2 hsh hm ho hwn hr => exact ⟨h.bound _ _ ho, Nat.le_refl _⟩
+  -- another user of `n` that is still busy cannot exist
+  have hbusy : ∀ u, u ≠ t → u ∈ s.users n → ¬ Done s u n → False := fun u hne hu hnd => hnd (hG u hu hne).1
+  -- the manager's map in the new state
+  have hmp : ∀ m o1, mp m = some o1 → (m = n ∧ o1 = o) ∨ s.map m = some o1 := by
+    intro m o1 hm1
+    cases hcase with
+    | fresh inMap _ _ =>
+      cases inMap with
+      | false => exact Or.inr (by simpa using hm1)
+      | true =>
+        simp only [if_true] at hm1
+        rcases upd_opt_cases hm1 with ⟨rfl, hx⟩ | ⟨_, hold⟩
+        · simp only [Option.some.injEq] at hx; exact Or.inl ⟨rfl, hx.symm⟩
+        · exact Or.inr hold
+    | existing o2 ob2 hsh hm2 ho hwn hr => exact Or.inr hm1
+  have hmp_other : ∀ m, m ≠ n → mp m = s.map m := by
+    intro m hmn
+    cases hcase with
+    | fresh inMap _ _ =>
+      cases inMap with
+      | false => simp
+      | true => simp only [if_true]; exact upd_other _ _ _ _ hmn
+    | existing o2 ob2 hsh hm2 ho hwn hr => rfl
+  refine ⟨?_, ?_, ?_, ?_, ?_, ?_, ?_, ?_, ?_, ?_, ?_, ?_⟩
+  · intro u tx' g1
+    rw [eV, eW]
+    by_cases e : u = t
+    · subst e; rw [hself] at g1; simp only [Option.some.injEq] at g1; subst g1; exact h.ver u tx ht
+    · rw [hother u e] at g1; exact h.ver u tx' g1
+  · intro u tx' m g1 g2 g3 g4
+    rw [eL]
+    by_cases e : u = t
+    · subst e; rw [hself] at g1; simp only [Option.some.injEq] at g1; subst g1
+      exact h.fresh u tx m ht hop (fun hw' hm => g3 hw' (husers_sub m u hm)) (hcb m _ g4)
+    · rw [hother u e] at g1
+      exact h.fresh u tx' m g1 g2 (fun hw' hm => g3 hw' (husers_sub m u hm)) (hcb m _ g4)
+  · intro u tx' m o' g1 g2 g3 g4 g5
+    have e : u ≠ t := by intro e; subst e; rw [hself] at g1; simp only [Option.some.injEq] at g1; subst g1; dsimp only at g3; rw [hop] at g3; simp at g3
+    rw [hother u e] at g1
+    rw [eL]; exact h.committed u tx' m o' g1 g2 g3 g4 g5
+  · intro u tx' m o' g1 g2 g3
+    by_cases e : u = t
+    · subst e; rw [hself] at g1; simp only [Option.some.injEq] at g1; subst g1
+      dsimp only at g2
+      rcases upd_opt_cases g2 with ⟨rfl, hx⟩ | ⟨hmn, hold⟩
+      · simp only [Option.some.injEq] at hx; subst hx
+        exact ⟨(husers_n u).2 (Or.inl rfl), ob', by rw [eO]; exact upd_same _ _ _, hob'.1, hob'.2.1, hob'.2.2⟩
+      · obtain ⟨hm, ob1, hob1, hn1, how1, hag1⟩ := h.cur u tx m o' ht hold (hndT m)
+        exact ⟨husers_sub m u hm, ob1, by rw [eO, upd_other _ _ _ _ (hoth m o' ob1 hmn hob1 hn1)]; exact hob1, hn1, how1, hag1⟩
+    · rw [hother u e] at g1
+      have hnd : ¬ Done s u m := fun hd => g3 ((hdone u m).2 hd)
+      obtain ⟨hm, ob1, hob1, hn1, how1, hag1⟩ := h.cur u tx' m o' g1 g2 hnd
+      have hoo : o' ≠ o := by
+        by_cases emn : m = n
+        · subst emn; exact absurd (hbusy u e hm hnd) id
+        · exact hoth m o' ob1 emn hob1 hn1
+      exact ⟨husers_sub m u hm, ob1, by rw [eO, upd_other _ _ _ _ hoo]; exact hob1, hn1, how1, hag1⟩
+  · intro m u tx' g1 g2 g3 v g4 g5
+    have hnd : ¬ Done s u m := fun hd => g3 ((hdone u m).2 hd)
+    by_cases emn : m = n
+    · subst emn
+      by_cases e : u = t
+      · subst e; rw [hself] at g2; simp only [Option.some.injEq] at g2; subst g2
+        have hv := husers_back m v g4 g5
+        have := hG v hv g5
+        exact ⟨(hdone v m).2 this.1, by rw [hend]; exact this.2⟩
+      · exact absurd (hbusy u e (husers_back m u g1 e) hnd) id
+    · rw [husers_m m emn] at g1 g4
+      have key : ∀ txu, s.txs u = some txu → txu.snap = tx'.snap → Done S v m ∧ endVerOf S v ≤ tx'.snap := by
+        intro txu f1 f2
+        have := h.excl m u txu g1 f1 hnd v g4 g5
+        exact ⟨(hdone v m).2 this.1, by rw [hend, ← f2]; exact this.2⟩
+      by_cases e : u = t
+      · subst e; rw [hself] at g2; simp only [Option.some.injEq] at g2; subst g2; exact key tx ht rfl
+      · rw [hother u e] at g2; exact key tx' g2 rfl
+  · intro m o' g1
+    rw [eM] at g1
+    rcases hmp m o' g1 with ⟨rfl, rfl⟩ | hold
+    · -- the object just handed out is the manager's object for `n`
+      refine ⟨ob', by rw [eO]; exact upd_same _ _ _, hob'.1, ?_, ?_⟩
+      · intro u g2 g3
+        have hut : u = t := by
+          by_cases hut : u = t
+          · exact hut
+          · exact absurd (hbusy u hut (husers_back m u g2 hut) (fun hd => g3 ((hdone u m).2 hd))) id
+        subst hut
+        exact ⟨_, hself, hob'.2.2⟩
+      · intro hall
+        exact absurd ((hdone t m).1 (hall t ((husers_n t).2 (Or.inl rfl)))) (hndT m)
+    · obtain ⟨ob1, hob1, hn1, ha, hb⟩ := h.map m o' hold
+      by_cases emn : m = n
+      · subst emn
+        by_cases eoo : o' = o
+        · subst eoo
+          refine ⟨ob', by rw [eO]; exact upd_same _ _ _, hob'.1, ?_, ?_⟩
+          · intro u g2 g3
+            have hut : u = t := by
+              by_cases hut : u = t
+              · exact hut
+              · exact absurd (hbusy u hut (husers_back m u g2 hut) (fun hd => g3 ((hdone u m).2 hd))) id
+            subst hut
+            exact ⟨_, hself, hob'.2.2⟩
+          · intro hall
+            exact absurd ((hdone t m).1 (hall t ((husers_n t).2 (Or.inl rfl)))) (hndT m)
+        · refine ⟨ob1, by rw [eO, upd_other _ _ _ _ eoo]; exact hob1, hn1, ?_, ?_⟩
+          · intro u g2 g3
+            have hut : u = t := by
+              by_cases hut : u = t
+              · exact hut
+              · exact absurd (hbusy u hut (husers_back m u g2 hut) (fun hd => g3 ((hdone u m).2 hd))) id
+            subst hut
+            exact ⟨_, hself, (hmapAgree o' ob1 hold hob1).2⟩
+          · intro hall
+            exact absurd ((hdone t m).1 (hall t ((husers_n t).2 (Or.inl rfl)))) (hndT m)
+      · have hoo : o' ≠ o := hoth m o' ob1 emn hob1 hn1
+        refine ⟨ob1, by rw [eO, upd_other _ _ _ _ hoo]; exact hob1, hn1, ?_, ?_⟩
+        · intro u g2 g3
+          rw [husers_m m emn] at g2
+          obtain ⟨tx1, f1, hag1⟩ := ha u g2 (fun hd => g3 ((hdone u m).2 hd))
+          by_cases e : u = t
+          · subst e; rw [ht] at f1; simp only [Option.some.injEq] at f1; subst f1; exact ⟨_, hself, hag1⟩
+          · exact ⟨tx1, by rw [hother u e]; exact f1, hag1⟩
+        · intro hall
+          rw [eL]; exact hb (fun u hu => (hdone u m).1 (hall u (by rw [husers_m m emn]; exact hu)))
+  · intro u tx' m o' g1 g2 g3
+    rw [eM]
+    by_cases e : u = t
+    · subst e; rw [hself] at g1; simp only [Option.some.injEq] at g1; subst g1
+      dsimp only at g2 g3
+      rcases upd_opt_cases g3 with ⟨rfl, hx⟩ | ⟨hmn, hold⟩
+      · simp only [Option.some.injEq] at hx; subst hx
+        cases hcase with
+        | fresh inMap hmap hpriv =>
+          cases inMap with
+          | true => exact Or.inr (by simp)
+          | false =>
+            rcases hpriv rfl with hsh | ⟨_, _, _, _, hwf, _⟩
+            · exact Or.inl (by simpa using h.pm hsh m)
+            · rw [g2] at hwf; simp at hwf
+        | existing o2 ob2 hsh hm ho hwn hr => exact Or.inr hm
+      · rw [hmp_other m hmn]; exact h.wmap u tx m o' ht g2 hold
+    · rw [hother u e] at g1
+      by_cases emn : m = n
+      · subst emn
+        exfalso
+        have hnd : ¬ Done s u m := not_done_writer_cur g1 g2 g3
+        exact hbusy u e (h.cur u tx' m o' g1 g3 hnd).1 hnd
+      · rw [hmp_other m emn]; exact h.wmap u tx' m o' g1 g2 g3
+  · intro u tx' m g1 g2 g3 g4
+    by_cases e : u = t
+    · subst e; rw [hself] at g1; simp only [Option.some.injEq] at g1; subst g1
+      dsimp only
+      by_cases emn : m = n
+      · subst emn; rw [upd_same]; simp
+      · rw [upd_other _ _ _ _ emn]
+        rw [husers_m m emn] at g4
+        exact h.wusers u tx m ht g2 hop g4
+    · rw [hother u e] at g1
+      exact h.wusers u tx' m g1 g2 g3 (husers_back m u g4 e)
+  · intro hsh m
+    rw [eSh] at hsh
+    rw [eM]
+    cases hcase with
+    | fresh inMap hmap hpriv =>
+      cases inMap with
+      | true => have := (hmap rfl).1; rw [hsh] at this; simp at this
+      | false => simpa using h.pm hsh m
+    | existing o2 ob2 hsh' hm ho hwn hr => rw [hsh] at hsh'; simp at hsh'
+  · rw [eO, eN]; exact bound_upd h.bound hnx.1 hnx.2
+  · intro m u g1
+    by_cases e : u = t
+    · subst e; exact ⟨_, hself⟩
+    · obtain ⟨tx1, f1⟩ := h.users m u (husers_back m u g1 e); exact ⟨tx1, by rw [hother u e]; exact f1⟩
+  · intro u tx' g1 g2
+    by_cases e : u = t
+    · subst e; rw [hself] at g1; simp only [Option.some.injEq] at g1; subst g1; exact h.openOk u tx ht hop
+    · rw [hother u e] at g1; exact h.openOk u tx' g1 g2
+
+
+/-- one step of the no-overlap discipline keeps both invariants -/
+theorem noInv_stepNO {s s' : State} {l : Label} (h : NOInv s) (hs : stepNO s l = some s') : NOInv s' := by
+  cases l with
+  | beginR t =>
+    simp only [stepNO, step] at hs
+    obtain ⟨ht, rfl⟩ := stepBeginR_some hs
+    exact noInv_begin h false ht s.writer (fun e => by simp at e) (fun _ => rfl)
+  | beginW t =>
+    simp only [stepNO, step] at hs
+    obtain ⟨ht, hw, rfl⟩ := stepBeginW_some hs
+    exact noInv_begin h true ht (some t) (fun _ => ⟨hw, rfl⟩) (fun e => by simp at e)
+  | access t n =>
+    simp only [stepNO] at hs
+    by_cases hg : mayAccess s t n = true
+    · rw [if_pos hg] at hs; exact noInv_access h hg hs
+    · rw [if_neg hg] at hs; simp at hs
+  | leave t n => simp only [stepNO, step] at hs; exact noInv_leave h hs
+  | read t n i => simp only [stepNO, step] at hs; exact noInv_read h hs
+  | wr t op => simp only [stepNO, step] at hs; exact noInv_wr h hs
+  | backfill t i => simp only [stepNO, step] at hs; exact noInv_backfill h hs
+  | closeTx t ok => simp only [stepNO, step] at hs; exact noInv_close h hs
+  | release t n => simp only [stepNO, step] at hs; exact noInv_release h hs
+  | evict n =>
+    simp only [stepNO, step, stepEvict, Option.some.injEq] at hs
+    subst hs; exact noInv_evict n h
+
+theorem stepNO_step {s s' : State} {l : Label} (hs : stepNO s l = some s') : step s l = some s' := by
+  cases l with
+  | access t n =>
+    simp only [stepNO] at hs
+    by_cases hg : mayAccess s t n = true
+    · rw [if_pos hg] at hs; exact hs
+    · rw [if_neg hg] at hs; simp at hs
+  | _ => simpa [stepNO] using hs
+
+theorem no_coh {s : State} (h : NOInv s) : ∀ t tx n o ob, s.txs t = some tx → tx.isOpen = true → tx.cur n = some o →
+    s.objs o = some ob → ob.owner = t ∧ Agree ob n tx.view := by
+  intro t tx n o ob ht hop hc ho
+  obtain ⟨_, ob1, hob1, _, how, hag⟩ := h.cur t tx n o ht hc (not_done_of_open ht hop)
+  rw [ho] at hob1; simp only [Option.some.injEq] at hob1; subst hob1
+  exact ⟨how, hag⟩
+
+theorem runNO_inv : ∀ (sched : List Label) (s s' : State), NOInv s ∧ ObsInv s → runNO s sched = some s' → NOInv s' ∧ ObsInv s' := by
+  intro sched
+  induction sched with
+  | nil => intro s s' hp h; simp [runNO] at h; subst h; exact hp
+  | cons l rest ih =>
+    intro s s' hp h
+    simp only [runNO] at h
+    cases hs : stepNO s l with
+    | none => simp [hs] at h
+    | some s1 =>
+      simp only [hs] at h
+      exact ih s1 s' ⟨noInv_stepNO hp.1 hs, obsInv_step hp.2 (no_coh hp.1) (stepNO_step hs)⟩ h
+
 end Sema.C09
